@@ -72,13 +72,14 @@ def applyEffects (sys : Sys) (c : Ctx) (n : String) (now : Int) (cands : List (S
         let id := match Obj.get? o "id" with | some (.str i) => i | _ => ""
         let fact := match Obj.get? o "fact" with | some (.obj f) => f | _ => []
         match acc.1.at n (locAddFact c id fact now) with
-        | (s1, .ok _) => (s1, acc.2 ++ [a])
+        -- the script's value is the id AddFact answers with (a property fact answers with its derived id, whatever id was given)
+        | (s1, .ok rid) => (s1, acc.2 ++ [{ a with value := .str rid }])
         | (s1, .error _) => (s1, acc.2 ++ [{ ok := false, value := .null }])
       else if a.ok && Obj.get? o "t" == some (.str "addrule") then
         let id := match Obj.get? o "id" with | some (.str i) => i | _ => ""
         let rule := match Obj.get? o "rule" with | some (.obj f) => f | _ => []
         match acc.1.at n (locAddRule c id rule now) with
-        | (s1, .ok _) => (s1, acc.2 ++ [a])
+        | (s1, .ok rid) => (s1, acc.2 ++ [{ a with value := .str rid }])
         | (s1, .error _) => (s1, acc.2 ++ [{ ok := false, value := .null }])
       else if a.ok && Obj.get? o "t" == some (.str "remfact") then
         let id := match Obj.get? o "id" with | some (.str i) => i | _ => ""
